@@ -49,6 +49,26 @@ func sameSSAExpr(a, b ssa.Value, depth int) bool {
 	case *ssa.Const:
 		y, ok := b.(*ssa.Const)
 		return ok && x.Value != nil && y.Value != nil && x.Value.ExactString() == y.Value.ExactString()
+	case *ssa.Call:
+		// pure builtins of the same arguments
+		y, ok := b.(*ssa.Call)
+		if !ok || len(x.Call.Args) != len(y.Call.Args) {
+			return false
+		}
+		bx, ok1 := x.Call.Value.(*ssa.Builtin)
+		by, ok2 := y.Call.Value.(*ssa.Builtin)
+		if !ok1 || !ok2 || bx.Name() != by.Name() {
+			return false
+		}
+		switch bx.Name() {
+		case "len", "cap", "min", "max":
+			for i := range x.Call.Args {
+				if !sameSSAExpr(x.Call.Args[i], y.Call.Args[i], depth+1) {
+					return false
+				}
+			}
+			return true
+		}
 	}
 	return false
 }
